@@ -61,6 +61,12 @@ pub fn generate(tier: &str, rng: &mut Rng) -> Vec<Spec> {
         if i % 2 == 0 { s = s.with("shift", rng.below(len as u64 + 3)); }
         v.push(s.with("xs", join(&xs)));
     }
+    // soak: more samples through ONE instance (no re-injection: the ring buffer keeps whatever internal counters it has) than a
+    // 16-bit counter can hold, widths that do not divide 65 536; `soak=K` stands for K generated pre-samples, only the window
+    // before the checked stretch is handed to Coq
+    for (n, kind) in [(3usize, "max"), (6, "min"), (5, "bounds")] {
+        let xs: Vec<i64> = (0..300i64).map(|k| ((k * 5 + k / 7) % 9) - (k % 4)).collect();
+        v.push(Spec::new(kind).with("N", n).with("pre", "").with("soak", 65_700).with("xs", join(&xs))); }
     add_entry_points(v, rng, &["max", "min", "bounds"], 60, |rng: &mut Rng| { let l = rng.range(1, 4); (0..l).map(|k| if k == 0 { rng.range(5, 9).to_string() } else { rng.range(-11, 11).to_string() }).collect::<Vec<_>>().join(",") })
 }
 
@@ -68,6 +74,33 @@ fn taps_of<const N: usize>(cb: &CircularBuffer<N, (i64, usize)>) -> Vec<(i64, us
 fn cb_of<const N: usize>(v: &[(i64, usize)]) -> CircularBuffer<N, (i64, usize)> { let mut cb = CircularBuffer::new(); for e in v { cb.push_back(*e); } cb }
 fn ctaps(v: &[(i64, usize)]) -> String { clist(v, |(a, t)| format!("({}, {}%N)", cz(*a), t)) }
 fn shifted(taps: &[(i64, usize)], d: usize) -> Vec<(i64, usize)> { taps.iter().map(|(a, t)| (*a, t + d)).collect() }
+
+/// the same-instance soak: `soak` pre-samples and then `xs` go through ONE filter object; its state before `xs` is read from a clone
+fn run_soak<const N: usize>(kind: &str, soak: usize, xs: &[i64], stats: &mut Stats) -> Outcome {
+    let pre: Vec<i64> = (0..soak as i64).map(|k| ((k * 7 + k / 5) % 11) - (k % 3)).collect();
+    let window: Vec<i64> = pre[pre.len().saturating_sub(N)..].to_vec();
+    let mut ys: Vec<(i64, i64)> = vec![]; let mut panic = false;
+    let (k, time0, a0, b0, time1, a1, b1);
+    match kind {
+        "max" => { let mut f: max::Max<i64, N> = Default::default(); for x in &pre { f.filter(*x); }
+            let g0 = f.clone().into_guts(); time0 = g0.time; a0 = taps_of(&g0.taps); b0 = vec![];
+            for x in xs { match catch(|| f.filter(*x)) { Ok(y) => ys.push((y, y)), Err(_) => { panic = true; break } } }
+            let g = f.into_guts(); k = 0; time1 = g.time; a1 = taps_of(&g.taps); b1 = vec![]; }
+        "min" => { let mut f: min::Min<i64, N> = Default::default(); for x in &pre { f.filter(*x); }
+            let g0 = f.clone().into_guts(); time0 = g0.time; a0 = taps_of(&g0.taps); b0 = vec![];
+            for x in xs { match catch(|| f.filter(*x)) { Ok(y) => ys.push((y, y)), Err(_) => { panic = true; break } } }
+            let g = f.into_guts(); k = 1; time1 = g.time; a1 = taps_of(&g.taps); b1 = vec![]; }
+        _ => { let mut f: Bounds<i64, N> = Default::default(); for x in &pre { f.filter(*x); }
+            let g0 = f.clone().into_guts(); let (m0, x0) = (g0.min.into_guts(), g0.max.into_guts()); time0 = m0.time; a0 = taps_of(&m0.taps); b0 = taps_of(&x0.taps);
+            for x in xs { match catch(|| f.filter(*x)) { Ok(y) => ys.push(y), Err(_) => { panic = true; break } } }
+            let g = f.into_guts(); let (gmin, gmax) = (g.min.into_guts(), g.max.into_guts());
+            k = 2; time1 = gmin.time; a1 = taps_of(&gmin.taps); b1 = taps_of(&gmax.taps); }
+    }
+    if panic { stats.panics += 1; }
+    stats.bump("same-instance-soak");
+    Outcome::Case(format!("mk {}%nat {}%N {} {}%N {} {} {} {} {} {}%N {} {}", k, N, czlist(&window), time0, ctaps(&a0), ctaps(&b0),
+        czlist(xs), clist(&ys, |(a, b)| format!("({}, {})", cz(*a), cz(*b))), cbool(panic), time1, ctaps(&a1), ctaps(&b1)))
+}
 
 fn run<const N: usize>(kind: &str, pre: &[i64], shift: Option<usize>, xs: &[i64], stats: &mut Stats) -> Outcome {
     // 1. reach a well-formed state on the real code, 2. move its clock, 3. re-inject it
@@ -113,5 +146,6 @@ pub fn exec(s: &Spec, stats: &mut Stats) -> Outcome {
     let shift = if s.has("shift") { Some(s.usize("shift")) } else { None };
     stats.bump(format!("N:{}", n)); stats.bump(format!("len:{}", xs.len() / 10 * 10));
     if let Some(sh) = shift { if sh < xs.len() { stats.bump("crosses-rebase"); } else { stats.bump("injected-no-rebase"); } }
+    if s.has("soak") { let k = s.usize("soak"); return crate::dispatch_n!(n, run_soak, (s.kind.as_str(), k, &xs, stats); 1 2 3 4 5 6 7 8 64 100 128); }
     crate::dispatch_n!(n, run, (s.kind.as_str(), &pre, shift, &xs, stats); 1 2 3 4 5 6 7 8 64 100 128)
 }
